@@ -45,6 +45,10 @@ def check(ctx):
     ctx.rule("C07-F", "a list node's children are its items and nothing else: insert_child never pushes a marker or generated "
              "content into a node kind whose renderer gives every child an item prefix")
     ctx.guard("C07-F", rule_f)
+    ctx.rule("C07-G", "there is no way around the prefix: in the arm of every prefixed block kind, each path to a successful result "
+             "passes through the creation of the reducer that attaches the prefix (append_subrender) — a fast path that writes the "
+             "marker as ordinary text leaves the block's later lines without it")
+    ctx.guard("C07-G", rule_g)
 
 
 def _append_sites(F):
@@ -357,3 +361,33 @@ def rule_e2(ctx):
     ctx.check(not leak, "C07-E", "insert_front:no-path-without-the-text", b.span, b.id,
               "insert_front can return without having inserted the string (e.g. an early return for empty lines): block "
               "prefixes would be missing on those lines")
+
+
+
+def rule_g(ctx):
+    from ..drops import error_blocks
+    from ..util import closure_bodies_created_in, transitive_closures
+    F = ctx.facts
+    drn, arms, sites = _append_sites(F)
+    errs = error_blocks(drn)
+    n = 0
+    for vn, subs in sites.items():
+        if len(subs) != 1:
+            continue  # C07-A reports that
+        body = subs[0][0]
+        tb, region = arms[vn]
+        creators = set()
+        for (cbb, _i, cb, _ops, _fields) in closure_bodies_created_in(F, drn):
+            if cbb in region and (cb.id == body.id or any(c2.id == body.id for _x, c2 in transitive_closures(F, cb))):
+                creators.add(cbb)
+        if not ctx.check(bool(creators), "C07-G", "%s:reducer-created-in-arm" % vn, drn.term(tb)["span"], drn.id, ""):
+            continue
+        n += 1
+        # leave the arm without passing the creation of that reducer (error exits apart)
+        inside = drn.reach_from(tb, avoid=creators | errs)
+        around = sorted(x for x in inside if x in region and any(s2 not in region and not drn.is_cleanup(s2) and drn.term(s2)["k"] != "unreachable" for s2 in drn.succ(x)))
+        ctx.check(not around, "C07-G", "%s:every-result-goes-through-the-prefixing-reducer" % vn,
+                  drn.term(around[0])["span"] if around else drn.term(tb)["span"], drn.id,
+                  "the %s arm can produce a result without installing the reducer that calls append_subrender: the block's lines "
+                  "would not all carry the marker / indentation" % vn)
+    ctx.floor("C07-G", "prefixed arms with a prefixing reducer", n, 5)
